@@ -112,6 +112,15 @@ def gen_points(rng, case, cap_nodes, n_interior):
         node_idx = sorted(node_idx)
     for idx in node_idx:
         pts.append({"tag": "node", "idx": list(idx), "x": [axes[j][i] for j, i in enumerate(idx)]})
+    # back-to-back twins: for every axis a node and then the node that differs from it in that axis alone (the object keeps
+    # nothing between calls; a one-entry cache keyed on the other axes would answer the second call with the first value)
+    for j, sj in enumerate(shape):
+        if sj >= 2:
+            base = [rng.randrange(s_) for s_ in shape]
+            twin = list(base)
+            twin[j] = (base[j] + 1 + rng.randrange(sj - 1)) % sj
+            for idx in (base, twin, base):
+                pts.append({"tag": "node", "idx": list(idx), "x": [axes[k_][i_] for k_, i_ in enumerate(idx)]})
     if case.get("desc"):
         return pts
     for _ in range(n_interior):
